@@ -97,7 +97,7 @@ def main(argv):
     with C.Lock():
         schema, problems = C.translate()
         C.log(f"translate: {len(problems)} problems")
-        proof = C.prove(mod.LEAN_MODULES)
+        proof = C.prove(mod.LEAN_MODULES, recheck=(tier == "thorough"))
         C.log(f"prove: build_ok={proof['build_ok']} obligations={len(proof['obligations'])} failed={proof['failed'][:3]} ({proof.get('build_s')} s)")
         ok_d, log_d = C.build_driver()
         ok_h, log_h, secs_h = C.build_harness()
@@ -196,6 +196,7 @@ def main(argv):
         "oracle_failures": len(out.oracle_failures),
         "known_findings_hit": [k["key"] for k in known],
         "notes": out.notes,
+        "leanchecker": proof.get("leanchecker"),
     }
     C.write_evidence(prop, tier, seed, cov, getattr(mod, "ASSUMPTIONS", []), time.time() - t0, len(violations))
     C.log(f"{prop} {tier}: evaluations={out.evaluations} nontrivial={cov['distinct_nontrivial']} disagreements={cov['disagreements']} oracle_failures={len(out.oracle_failures)} violations={len(violations)} wall={time.time()-t0:.1f}s")
